@@ -37,6 +37,17 @@ std::string asmCase(const vio::Case &c) {
   g_passes = 0;
   std::string outName = "asm_out.bin";
   unlink(outName.c_str());
+  for (int k = 0; k < 64; k++) {   // C11: unrelated assemblies earlier in the same process
+    std::string key = "pre" + std::to_string(k);
+    if (!c.has(key.c_str())) break;
+    try {
+      hexasm::Lexer l0; hexasm::Parser p0(l0);
+      l0.loadBuffer(c.str(key.c_str()));
+      auto prog0 = p0.parseProgram();
+      hexasm::CodeGen cg0(prog0);
+      std::ostringstream os0; cg0.emitProgramBin(os0);
+    } catch (...) {}
+  }
   hexasm::Lexer lexer;
   hexasm::Parser parser(lexer);
   try {
